@@ -42,6 +42,7 @@ type EngineSpec struct {
 	Components bool `json:"components,omitempty"` // WithComponents()
 	Less       bool `json:"less,omitempty"`       // WithLessProcessor()
 	Funcs      bool `json:"funcs,omitempty"`      // register the harness FuncMap
+	Proc       bool `json:"proc,omitempty"`       // register the harness NodeProcessor (per-render state: counts nodes, stamps the count)
 	// which optional fs interfaces the simulated FS implements
 	ReadFileFS bool      `json:"read_file_fs,omitempty"`
 	StatFS     bool      `json:"stat_fs,omitempty"`
@@ -164,7 +165,7 @@ type StackOp struct {
 
 // Entries are the render entry points.
 var Entries = []string{
-	"Vue.Render", "Vue.RenderFragment", "Load.Render", "RenderFile", "RenderString", "RenderByte", "RenderReader",
+	"Vue.Render", "Vue.RenderFragment", "Load.Render", "RenderFile", "RenderString", "RenderByte", "RenderReader", "Vue.RenderNodes",
 }
 
 // BaseEntries render straight on the long-lived base template (no New()/Fill() in between): whatever a render
